@@ -151,7 +151,8 @@ def check_state(acc, state, window):
     # ---- metrics()
     acc.transitions += 1
     try:
-        got = M.metrics(*T.build(state), window=window)
+        # the documented default (0.5 semitone) is exercised as the default: no keyword
+        got = M.metrics(*T.build(state), **({} if window == S.WINDOW else {"window": window}))
         got = [float(v) for v in got]
         arity = len(got)
     except Exception as ex:  # noqa
